@@ -35,8 +35,8 @@ def format_message(e):
     # the dict might have come from json.loads (so unicode everywhere), or
     # over the wire from a py2 program (so bytes), or from a py3 program (so
     # unicode). Do our best to produce text.
-    e = ensure_dict_str_keys(e)
     try:
+        e = ensure_dict_str_keys(e)
         if "format" in e:
             fmt = six.ensure_str(e['format'])
             args = e
